@@ -1080,6 +1080,52 @@ def _foreign_sets_and_names(model, rep):
        if bad else "", bad[0].lineno if bad else enc.lineno)
 
 
+def _containers_for_the_writer(model, rep):
+    """to_meshio passes the user's point_data / cell_data on to meshio.Mesh,
+    and meshio's writers *store into* the containers of that object (the
+    legacy VTK writer pads two-component data to three components in
+    place).  'Exporting does not alter' therefore needs the containers
+    handed over to be new objects whenever the user supplied one - a
+    re-binding of each of the two parameters to a fresh container that is
+    not conditional on the encode_* options."""
+    R5 = "C17-R5"
+    fn = model.func(IO, "to_meshio")
+    parent = {}
+    for a in ast.walk(fn.node):
+        for b in ast.iter_child_nodes(a):
+            parent[id(b)] = a
+    for par in ("point_data", "cell_data"):
+        if par not in fn.params():
+            raise AnalysisError(f"to_meshio: parameter {par} not found")
+        fresh = False
+        for n in ast.walk(fn.node):
+            if not (isinstance(n, ast.Assign) and src(n.targets[0]) == par):
+                continue
+            v = n.value
+            newobj = isinstance(v, (ast.Dict, ast.DictComp)) or (
+                isinstance(v, ast.Call) and src(v.func) in ("dict",
+                                                            "copy.copy"))
+            cond_ok, c = True, n
+            while id(c) in parent:
+                c = parent[id(c)]
+                if isinstance(c, ast.If) and any(
+                        isinstance(y, ast.Name) and y.id.startswith("encode")
+                        for y in ast.walk(c.test)):
+                    cond_ok = False
+            if newobj and cond_ok:
+                fresh = True
+        cons = f"to_meshio:{par}:copied-for-the-writer"
+        if fresh:
+            rep.ok(R5, cons, f"meshio receives a new container for {par}")
+        else:
+            rep.fail(R5, fn.path, "to_meshio", cons,
+                     f"the caller's {par} container reaches meshio.Mesh "
+                     f"itself unless an encode_* option replaces it: the "
+                     f"VTK writer stores padded arrays into it, so saving a "
+                     f"2-D mesh with two-component data turns the caller's "
+                     f"(N, 2) arrays into (N, 3)", fn.lineno)
+
+
 def run(model: Model, rep, tier: str) -> None:
     rep.rule("C17-R1", "writer/reader symmetry: keys, prefixes, type "
              "tables, bit weights, hexahedron permutation")
@@ -1094,6 +1140,7 @@ def run(model: Model, rep, tier: str) -> None:
     staged(lambda: _r3(model, rep), lambda: _r4(model, rep),
            lambda: _loaders_keep_numbering(model, rep),
            lambda: _foreign_sets_and_names(model, rep),
+           lambda: _containers_for_the_writer(model, rep),
            lambda: _r5(model, rep))
     rep.require_min("C17-R1", 9)
     rep.require_min("C17-R2", 5)
@@ -1103,6 +1150,9 @@ def run(model: Model, rep, tier: str) -> None:
 _IO = FIO
 _G22 = "    if len(boundaries) == 0 and m.cell_data and m.field_data:"
 MUTANTS = [
+    ("to_meshio hands the caller's point data dictionary to meshio",
+     [(_IO, "    if point_data is not None:\n        point_data = "
+       "dict(point_data)\n", "")], "C17-R5"),
     ("point-data indicator sized by the number of vertices",
      [(FM, "            ind = np.zeros(self.p.shape[1])",
        "            ind = np.zeros(self.nvertices)")], "C17-R1"),
